@@ -1,5 +1,653 @@
-import Summer.Model.Build
+import Summer.Proofs.IllFormed
+import Mathlib.Algebra.Order.Field.Basic
+import Mathlib.Tactic.Linarith
+/-
+C17 — ill-formed model definitions are rejected instead of silently simulated.
+
+Model: the building API of `Summer/Model/Build.lean`; every public call is a pure function
+`Model α → … → Res (Model α)` (`Res = Except Err`), "raises" = returns `.error`.
+Specification: `Summer/Spec/IllFormed.lean` (`Spec.Call`, `Spec.IllFormed`, one constructor per item
+of the property sentence, written from the sentence and not from the guards).
+
+Quantification.  Every `rejects_*` theorem holds for EVERY current model `m` (reachable by the API or
+not, stratified or not, with any flows / requests) — there is no hypothesis on `m` at all, so no
+valid context lets the defect slip through, at whatever point of the build sequence it is injected.
+The theorems are purely structural: they hold over any carrier `α` with the core classes the model
+functions need (`LT`, `Zero`, …), in particular over every ordered field and over `Rat`.
+
+`state_unchanged_on_error`: automatic.  All calls are pure functions returning `Except`; a rejected
+call returns `.error _` and the caller still holds the old `m` — there is no state to roll back.
+(In Python the analogous statement is NOT automatic and is not claimed here: e.g. `stratify_with`
+mutates `_mixing_matrices` / `compartments` / `flows` before the age-stratification assertions.)
+-/
 namespace Summer.Props.C17
-theorem placeholder : True := trivial
+open Summer Summer.Build Summer.Spec Summer.Generated Summer.Proofs.IllFormed
+
+section
+variable {α : Type} [Zero α] [One α] [Add α] [Sub α] [Div α] [NatCast α] [LT α] [DecidableLT α]
+
+/-! ## 0. The master theorem -/
+
+/-- **C17.**  For every model `m` and every call `c` of the building API: if `c` is ill-formed with
+respect to `m` (any of the 28 constructors of `Spec.IllFormed`) then `c` returns an error. -/
+theorem rejects (m : Model α) (c : Call α) (h : IllFormed m c) : c.isOk m = false :=
+  illFormed_rejected m c h
+
+/-! ## 1. One theorem per defect class, stated directly on the model functions -/
+
+/-! ### constructor -/
+
+omit [Zero α] [One α] [Add α] [Sub α] [Div α] [NatCast α] in
+/-- end time not after start time -/
+theorem rejects_end_not_after_start (t0 t1 dt : α) (ws : Option Nat) (comps inf : List String)
+    (h : ¬ t0 < t1) : (mkModel t0 t1 dt ws comps inf).isOk = false :=
+  isOk_false_of fun hok => h (mkModel_isOk.mp hok).1
+
+omit [Zero α] [One α] [Add α] [Sub α] [Div α] [NatCast α] in
+/-- timestep not dividing the span: the driver passes `wholeSteps = some k` iff `dt ≠ 0` and
+`(t1 - t0) / dt = k ∈ ℕ`, and `none` otherwise -/
+theorem rejects_timestep_not_dividing (t0 t1 dt : α) (comps inf : List String) :
+    (mkModel t0 t1 dt none comps inf).isOk = false :=
+  isOk_false_of fun hok => by simpa using (mkModel_isOk.mp hok).2.1
+
+omit [Zero α] [One α] [Add α] [Sub α] [Div α] [NatCast α] in
+/-- an infectious compartment that is not a compartment -/
+theorem rejects_infectious_unknown (t0 t1 dt : α) (ws : Option Nat) (comps inf : List String)
+    (h : ∃ n ∈ inf, n ∉ comps) : (mkModel t0 t1 dt ws comps inf).isOk = false :=
+  let ⟨n, hn, hnot⟩ := h
+  isOk_false_of fun hok => hnot ((mkModel_isOk.mp hok).2.2 n hn)
+
+/-! ### `set_initial_population` -/
+
+omit [One α] [Add α] [Sub α] [Div α] [NatCast α] [LT α] [DecidableLT α] in
+/-- an initial-distribution key that is not a compartment of the model -/
+theorem rejects_init_dist_unknown (m : Model α) (isDict : Bool) (dist : List (String × Expr α))
+    (h : ∃ kv ∈ dist, kv.1 ∉ m.origNames) : (setInitialPopulation m isDict dist).isOk = false :=
+  let ⟨kv, hkv, hnot⟩ := h
+  isOk_false_of fun hok => hnot ((setInitialPopulation_isOk.mp hok).2.2.2 kv hkv)
+
+/-! ### flow-adding calls -/
+
+omit [Zero α] [Add α] [Sub α] [LT α] [DecidableLT α] in
+/-- a transition / infection-frequency / infection-density / absolute flow whose source or
+destination is not a compartment of the model -/
+theorem rejects_flow_comp_unknown (m : Model α) (kind : FlowKind) (name : String) (ok : Bool)
+    (p : Expr α) (src dst : String) (ss ds : Strata) (ex : Option Nat)
+    (h : src ∉ m.origNames ∨ dst ∉ m.origNames) :
+    (addFlow m (.transition kind name ok p src dst ss ds ex)).isOk = false :=
+  isOk_false_of fun hok =>
+    have := addFlow_transition_isOk.mp hok
+    h.elim (fun h1 => h1 this.2.2.2.2.1) (fun h1 => h1 this.2.2.2.1)
+
+omit [Zero α] [Add α] [Sub α] [LT α] [DecidableLT α] in
+/-- unequal numbers of matching source and destination compartments -/
+theorem rejects_unequal_counts (m : Model α) (kind : FlowKind) (name : String) (ok : Bool)
+    (p : Expr α) (src dst : String) (ss ds : Strata) (ex : Option Nat)
+    (h : nQueryMatching m src ss ≠ nQueryMatching m dst ds) :
+    (addFlow m (.transition kind name ok p src dst ss ds ex)).isOk = false :=
+  isOk_false_of fun hok => h (addFlow_transition_isOk.mp hok).2.2.2.2.2.1.symm
+
+omit [Zero α] [Add α] [Sub α] [LT α] [DecidableLT α] in
+/-- a second birth flow (crude or replacement, after a crude or replacement one) -/
+theorem rejects_second_birth (m : Model α) (op : FlowOp α) (hop : opIsBirth op = true)
+    (h : ∃ f ∈ m.flows, IsBirthFlow f) : (addFlow m op).isOk = false := by
+  cases op <;> simp only [opIsBirth, Bool.false_eq_true] at hop
+  · exact isOk_false_of fun hok => (addFlow_crudeBirth_isOk.mp hok).2.1 h
+  · exact isOk_false_of fun hok => (addFlow_replBirth_isOk.mp hok).1 h
+
+omit [Zero α] [Add α] [Sub α] [LT α] [DecidableLT α] in
+/-- a duplicated universal-death name: some flow of the model already carries the name -/
+theorem rejects_dup_universal_death (m : Model α) (name : String) (ok : Bool) (p : Expr α)
+    (h : ∃ f ∈ m.flows, f.name = name) : (addFlow m (.universalDeath name ok p)).isOk = false :=
+  isOk_false_of fun hok => (addFlow_universalDeath_isOk.mp hok).2.1 h
+
+omit [Zero α] [Add α] [Sub α] [LT α] [DecidableLT α] in
+/-- an unmet flow-count expectation (all five calls that take `expected_flow_count`) -/
+theorem rejects_unmet_expectation (m : Model α) (op : FlowOp α) (e : Nat)
+    (hex : opExpected op = some e) (h : e ≠ flowsCreated m op) : (addFlow m op).isOk = false := by
+  refine isOk_false_of fun hok => h ?_
+  cases op <;> simp only [opExpected, flowsCreated] at hex ⊢
+  · exact (addFlow_crudeBirth_isOk.mp hok).2.2.2 e hex
+  · exact (addFlow_replBirth_isOk.mp hok).2.2 e hex
+  · exact (addFlow_importF_isOk.mp hok).2.2.2 e hex
+  · exact (addFlow_death_isOk.mp hok).2.2 e hex
+  · exact absurd hex (by simp)
+  · exact (addFlow_transition_isOk.mp hok).2.2.2.2.2.2 e hex
+
+omit [Zero α] [Add α] [Sub α] [LT α] [DecidableLT α] in
+/-- a flow rate that is neither a number nor a graph object (all five calls that take a rate) -/
+theorem rejects_bad_rate (m : Model α) (op : FlowOp α) (h : opRateOk op = some false) :
+    (addFlow m op).isOk = false := by
+  refine isOk_false_of fun hok => ?_
+  cases op <;> simp only [opRateOk, Option.some.injEq, reduceCtorEq] at h
+  · exact absurd (addFlow_crudeBirth_isOk.mp hok).1 (by simp [h])
+  · exact absurd (addFlow_importF_isOk.mp hok).1 (by simp [h])
+  · exact absurd (addFlow_death_isOk.mp hok).1 (by simp [h])
+  · exact absurd (addFlow_universalDeath_isOk.mp hok).1 (by simp [h])
+  · exact absurd (addFlow_transition_isOk.mp hok).1 (by simp [h])
+
+/-! ### `Stratification` objects -/
+
+/-- a flow adjustment that omits a stratum -/
+theorem rejects_flow_adj_omits (sp : StratSpec α)
+    (h : ∃ d ∈ sp.flowAdj, Omits (stratumNames sp.kind sp.strata) (d.adjs.map (·.1))) :
+    (mkStrat sp).isOk = false :=
+  let ⟨d, hd, hom⟩ := h
+  isOk_false_of fun hok => (mkStrat_isOk_inv hok).flowAdj d hd hom
+
+/-- an infectiousness adjustment that omits a stratum -/
+theorem rejects_inf_adj_omits (sp : StratSpec α)
+    (h : ∃ ia ∈ sp.infAdj, Omits (stratumNames sp.kind sp.strata) (ia.2.map (·.1))) :
+    (mkStrat sp).isOk = false :=
+  let ⟨ia, hia, hom⟩ := h
+  isOk_false_of fun hok => (mkStrat_isOk_inv hok).infAdj ia hia hom
+
+/-- a literal split that omits a stratum -/
+theorem rejects_split_omits (sp : StratSpec α) (props : List (String × Expr α)) (vals : List α)
+    (hsp : sp.split = some props) (hlit : LiteralSplit props vals)
+    (h : Omits (stratumNames sp.kind sp.strata) (props.map (·.1))) : (mkStrat sp).isOk = false :=
+  isOk_false_of fun hok => ((mkStrat_isOk_inv hok).split _ _ hsp hlit).1 h
+
+/-- a literal split with a negative proportion -/
+theorem rejects_split_negative (sp : StratSpec α) (props : List (String × Expr α)) (vals : List α)
+    (hsp : sp.split = some props) (hlit : LiteralSplit props vals)
+    (h : ∃ v ∈ vals, v < 0) : (mkStrat sp).isOk = false :=
+  let ⟨v, hv, hneg⟩ := h
+  isOk_false_of fun hok => ((mkStrat_isOk_inv hok).split _ _ hsp hlit).2.1 v hv hneg
+
+/-- a literal split whose sum is not strictly within `1/splitTolDen` of one (core-class form) -/
+theorem rejects_split_not_sum_one (sp : StratSpec α) (props : List (String × Expr α)) (vals : List α)
+    (hsp : sp.split = some props) (hlit : LiteralSplit props vals)
+    (h : ¬ (1 - sumL vals < (splitTol : α)) ∨ ¬ (sumL vals - 1 < (splitTol : α))) :
+    (mkStrat sp).isOk = false :=
+  isOk_false_of fun hok =>
+    have := ((mkStrat_isOk_inv hok).split _ _ hsp hlit).2.2
+    h.elim (fun h1 => h1 this.1) (fun h1 => h1 this.2)
+
+/-- a mixing matrix set on a strain stratification -/
+theorem rejects_mixing_strain_set (sp : StratSpec α) (hk : sp.kind = .strain)
+    (hm : sp.mixing.isSome = true) : (mkStrat sp).isOk = false :=
+  isOk_false_of fun hok => (mkStrat_isOk_inv hok).mixing ⟨hk, hm⟩
+
+end
+
+/-! ### `stratify_with`
+The age checks sit after the compartments and flows have been stratified; the theorems say the call
+fails whichever guard fires first. -/
+section
+variable {α : Type} [One α] [Div α] [NatCast α]
+
+/-- a stratified compartment that is not a compartment of the model -/
+theorem rejects_stratified_unknown (m : Model α) (s : Strat α) (h : ∃ c ∈ s.comps, c ∉ m.origNames) :
+    (stratifyWith m s).isOk = false :=
+  let ⟨c, hc, hnot⟩ := h
+  isOk_false_of fun hok => hnot ((stratifyWith_isOk_inv hok).comps c hc)
+
+/-- a flow adjustment naming a flow that the model does not have -/
+theorem rejects_adjusted_flow_unknown (m : Model α) (s : Strat α)
+    (h : ∃ d ∈ s.flowAdj, ∀ f ∈ m.flows, f.name ≠ d.flow) : (stratifyWith m s).isOk = false :=
+  let ⟨d, hd, hnot⟩ := h
+  isOk_false_of fun hok =>
+    let ⟨f, hf, hname⟩ := (stratifyWith_isOk_inv hok).flowsExist d hd
+    hnot f hf hname
+
+/-- an adjustment filter (source or destination strata) naming a stratum that no stratification of
+that name has -/
+theorem rejects_filter_stratum_unknown (m : Model α) (s : Strat α)
+    (h : ∃ d ∈ s.flowAdj, ∃ kv ∈ d.srcStrata ++ d.dstStrata,
+      ∀ t ∈ m.strats, t.name = kv.1 → kv.2 ∉ t.strata) : (stratifyWith m s).isOk = false :=
+  let ⟨d, hd, kv, hkv, hnot⟩ := h
+  isOk_false_of fun hok =>
+    let ⟨t, ht, hname, hmem⟩ := (stratifyWith_isOk_inv hok).filters d hd kv hkv
+    hnot t ht hname hmem
+
+/-- special case: an adjustment filter naming a stratification the model does not have -/
+theorem rejects_filter_stratification_unknown (m : Model α) (s : Strat α)
+    (h : ∃ d ∈ s.flowAdj, ∃ kv ∈ d.srcStrata ++ d.dstStrata, ∀ t ∈ m.strats, t.name ≠ kv.1) :
+    (stratifyWith m s).isOk = false :=
+  let ⟨d, hd, kv, hkv, hnot⟩ := h
+  rejects_filter_stratum_unknown m s ⟨d, hd, kv, hkv, fun t ht hn => (hnot t ht hn).elim⟩
+
+/-- a second age stratification -/
+theorem rejects_second_age (m : Model α) (s : Strat α) (hk : s.kind = .age)
+    (h : ∃ t ∈ m.strats, t.kind = .age) : (stratifyWith m s).isOk = false :=
+  isOk_false_of fun hok => ((stratifyWith_isOk_inv hok).age hk).1 h
+
+/-- a second strain stratification -/
+theorem rejects_second_strain (m : Model α) (s : Strat α) (hk : s.kind = .strain)
+    (h : ∃ t ∈ m.strats, t.kind = .strain) : (stratifyWith m s).isOk = false :=
+  isOk_false_of fun hok => (stratifyWith_isOk_inv hok).strain hk h
+
+/-- a duplicated stratification name -/
+theorem rejects_dup_strat_name (m : Model α) (s : Strat α) (h : ∃ t ∈ m.strats, t.name = s.name) :
+    (stratifyWith m s).isOk = false :=
+  isOk_false_of fun hok => (stratifyWith_isOk_inv hok).freshName h
+
+/-- a mixing matrix on a partial stratification; in fact on any stratification whose compartment
+list is not literally the model's list of original compartments (Python compares the lists) -/
+theorem rejects_mixing_partial (m : Model α) (s : Strat α) (hm : s.mixing.isSome = true)
+    (h : s.comps ≠ m.origNames) : (stratifyWith m s).isOk = false :=
+  isOk_false_of fun hok => h ((stratifyWith_isOk_inv hok).mixing hm).2
+
+/-- an age stratification that is partial (same remark) -/
+theorem rejects_age_partial (m : Model α) (s : Strat α) (hk : s.kind = .age)
+    (h : s.comps ≠ m.origNames) : (stratifyWith m s).isOk = false :=
+  isOk_false_of fun hok => h ((stratifyWith_isOk_inv hok).age hk).2
+
+/-- (beyond the property sentence) an infectiousness adjustment for a name that is not a compartment -/
+theorem rejects_inf_adj_comp_unknown (m : Model α) (s : Strat α)
+    (h : ∃ ia ∈ s.infAdj, ia.1 ∉ m.origNames) : (stratifyWith m s).isOk = false :=
+  let ⟨ia, hia, hnot⟩ := h
+  isOk_false_of fun hok => hnot ((stratifyWith_isOk_inv hok).infComps ia hia)
+
+/-- a strain stratification carrying a mixing matrix -/
+theorem rejects_mixing_strain (m : Model α) (s : Strat α) (hk : s.kind = .strain)
+    (hm : s.mixing.isSome = true) : (stratifyWith m s).isOk = false :=
+  isOk_false_of fun hok => ((stratifyWith_isOk_inv hok).mixing hm).1 hk
+
+end
+
+/-! ### derived-output requests -/
+section
+variable {α : Type}
+
+/-- output compartments that match no compartment of the model -/
+theorem rejects_output_comp_unknown (m : Model α) (name : String) (names : List String)
+    (strata : Strata) (save : Bool) (h : ∀ c ∈ m.comps, ∀ n ∈ names, ¬ CompMatches c n strata) :
+    (addRequest m ⟨name, .comp names strata, save⟩).isOk = false :=
+  isOk_false_of fun hok =>
+    let ⟨c, hc, n, hn, hm⟩ := (addRequest_isOk.mp hok).2.2.2 _ _ rfl
+    h c hc n hn hm
+
+/-- a derived-output source that does not exist: a flow output matching no flow; an aggregate,
+cumulative or function output naming an output that has not been requested -/
+theorem rejects_output_source_unknown (m : Model α) (e : ReqEntry α) (h : SourceMissing m e.req) :
+    (addRequest m e).isOk = false :=
+  isOk_false_of fun hok => (addRequest_isOk.mp hok).2.2.1 h
+
+/-- a duplicated derived-output name -/
+theorem rejects_dup_output_name (m : Model α) (e : ReqEntry α) (h : ∃ r ∈ m.requests, r.name = e.name) :
+    (addRequest m e).isOk = false :=
+  isOk_false_of fun hok => (addRequest_isOk.mp hok).2.1 h
+
+end
+
+/-! ### ordered-field forms of the two numeric defects -/
+section
+variable {α : Type} [Field α] [LinearOrder α] [IsStrictOrderedRing α]
+
+omit [Field α] [IsStrictOrderedRing α] in
+/-- end time before or equal to the start time -/
+theorem rejects_end_le_start (t0 t1 dt : α) (ws : Option Nat) (comps inf : List String)
+    (h : t1 ≤ t0) : (mkModel t0 t1 dt ws comps inf).isOk = false :=
+  rejects_end_not_after_start t0 t1 dt ws comps inf (not_lt.mpr h)
+
+/-- a literal split whose sum differs from one by at least the tolerance `1/100` -/
+theorem rejects_split_sum_off (sp : StratSpec α) (props : List (String × Expr α)) (vals : List α)
+    (hsp : sp.split = some props) (hlit : LiteralSplit props vals)
+    (h : (1 : α) / (splitTolDen : α) ≤ |1 - sumL vals|) : (mkStrat sp).isOk = false := by
+  refine rejects_split_not_sum_one sp props vals hsp hlit ?_
+  by_contra hcon
+  rw [not_or, not_not, not_not] at hcon
+  have : |1 - sumL vals| < (splitTol : α) := abs_lt.mpr ⟨by linarith [hcon.2], hcon.1⟩
+  exact absurd h (not_le.mpr this)
+
+end
+
+/-! ## 2. Finalised models -/
+section
+variable {α : Type} [Zero α] [One α] [Add α] [Sub α] [Div α] [NatCast α] [LT α] [DecidableLT α]
+
+/-- **Finalised.**  Once `m.finalized = true`, every flow-adding (`addFlow`, all six constructors),
+stratifying (`stratifyWith`), population-setting (`setInitialPopulation`, `initPopArray`,
+`adjustPopulationSplit`) and output-requesting (`addRequest`) call returns an error — with ONE
+necessary side condition: for `add_universal_death_flows` the model must have at least one original
+compartment.  (The call loops over `_original_compartment_names` and only the per-compartment
+`_add_exit_flow` asserts `not finalized`; the constructor accepts an empty compartment list, and on
+such a model the call is a silent no-op, see `universalDeath_no_compartments`.) -/
+theorem finalised (m : Model α) (c : Call α) (hfin : m.finalized = true) (hmut : c.mutates = true)
+    (hud : ∀ name ok p, c = .addFlow (.universalDeath name ok p) → m.origNames ≠ []) :
+    c.isOk m = false :=
+  finalised_rejected m c hfin hmut hud
+
+omit [Zero α] [Add α] [Sub α] [LT α] [DecidableLT α] in
+/-- the exception is harmless: without compartments the call changes nothing -/
+theorem universalDeath_no_compartments (m m' : Model α) (name : String) (ok : Bool) (p : Expr α)
+    (h0 : m.origNames = []) (h : addFlow m (.universalDeath name ok p) = .ok m') : m' = m :=
+  universalDeath_noop h0 h
+
+end
+
+/-! ## 3. Reachable models: "does not exist" read off the current structure
+
+None of the theorems above needs a reachability hypothesis.  `Spec.IllFormed` says "compartment `n`
+does not exist" as `n ∉ m.origNames` and "stratum does not exist" as "no stratification of that
+name has it".  On models reachable through the API these coincide with the statements about the
+*current* compartments and with "the stratification of that name lacks it". -/
+section
+variable {α : Type} [Zero α] [One α] [Add α] [Sub α] [Mul α] [Div α] [NatCast α] [LT α] [DecidableLT α]
+
+/-- on every reachable model, `origNames` is exactly the set of names of the current (stratified)
+compartments, and stratification names are pairwise distinct -/
+theorem reachable_names (m : Model α) (hr : Reachable m) :
+    (∀ n, n ∈ m.origNames ↔ ∃ c ∈ m.comps, c.name = n) ∧ (m.strats.map (·.name)).Nodup :=
+  ⟨(reachable_wellNamed hr).names, (reachable_wellNamed hr).stratNames⟩
+
+/-- transition-type flow between names one of which no current compartment carries -/
+theorem rejects_flow_comp_absent (m : Model α) (hr : Reachable m) (kind : FlowKind) (name : String)
+    (ok : Bool) (p : Expr α) (src dst : String) (ss ds : Strata) (ex : Option Nat)
+    (h : (∀ c ∈ m.comps, c.name ≠ src) ∨ (∀ c ∈ m.comps, c.name ≠ dst)) :
+    (addFlow m (.transition kind name ok p src dst ss ds ex)).isOk = false :=
+  rejects_flow_comp_unknown m kind name ok p src dst ss ds ex <|
+    h.imp (fun h hn => let ⟨c, hc, hcn⟩ := ((reachable_wellNamed hr).names src).mp hn; h c hc hcn)
+          (fun h hn => let ⟨c, hc, hcn⟩ := ((reachable_wellNamed hr).names dst).mp hn; h c hc hcn)
+
+/-- stratifying a name that no current compartment carries -/
+theorem rejects_stratified_absent (m : Model α) (hr : Reachable m) (s : Strat α)
+    (h : ∃ n ∈ s.comps, ∀ c ∈ m.comps, c.name ≠ n) : (stratifyWith m s).isOk = false :=
+  let ⟨n, hn, hno⟩ := h
+  rejects_stratified_unknown m s ⟨n, hn, fun hmem =>
+    let ⟨c, hc, hcn⟩ := ((reachable_wellNamed hr).names n).mp hmem; hno c hc hcn⟩
+
+/-- an adjustment filter naming an existing stratification and a stratum it does not have -/
+theorem rejects_filter_stratum_absent (m : Model α) (hr : Reachable m) (s : Strat α)
+    (h : ∃ d ∈ s.flowAdj, ∃ kv ∈ d.srcStrata ++ d.dstStrata,
+      ∃ t ∈ m.strats, t.name = kv.1 ∧ kv.2 ∉ t.strata) : (stratifyWith m s).isOk = false :=
+  let ⟨d, hd, kv, hkv, t, ht, hname, hnot⟩ := h
+  rejects_filter_stratum_unknown m s ⟨d, hd, kv, hkv, fun t' ht' hname' => by
+    have : t' = t := eq_of_nodup_map (reachable_wellNamed hr).stratNames ht' ht (hname'.trans hname.symm)
+    rw [this]; exact hnot⟩
+
+end
+
+/-! ## 4. Non-vacuity: accepted calls, and a concrete ill-formed call for every `rejects_*` theorem
+(all on `Rat`, evaluated by the kernel) -/
+namespace Ex
+
+/-- the SIR model `CompartmentalModel((0, 10), ["S","I","R"], ["I"], timestep=1)` -/
+def m0 : Model Rat :=
+  { t0 := 0, t1 := 10, dt := 1, nTimes := 11,
+    comps := [⟨"S", []⟩, ⟨"I", []⟩, ⟨"R", []⟩], origNames := ["S", "I", "R"], infectious := ["I"],
+    flows := [], strats := [], mixingCats := [[]], mixingMats := [], strains := ["default"],
+    initDist := none, arrayPop := none, actions := [], requests := [], computed := [],
+    whitelist := [], finalized := false }
+
+/-- run a list of calls from `m0` (falls back to `m0` if one fails — checked not to happen below) -/
+def build (steps : List (Model Rat → Res (Model Rat))) : Model Rat :=
+  ((steps.foldlM (fun (m : Model Rat) (f : Model Rat → Res (Model Rat)) => f m) m0).toOption).getD m0
+
+def opInf : FlowOp Rat := .transition .infFreq "infection" true (.const (3/10)) "S" "I" [] [] (some 1)
+def opRec : FlowOp Rat := .transition .transition "recovery" true (.const (1/10)) "I" "R" [] [] none
+def opBirth : FlowOp Rat := .crudeBirth "birth" true (.const (1/100)) "S" [] (some 1)
+def opRepl : FlowOp Rat := .replBirth "rbirth" "S" [] none
+def opImp : FlowOp Rat := .importF "imp" true (.const 5) "I" true [] (some 1)
+def opDeath : FlowOp Rat := .death "death_i" true (.const (1/20)) "I" [] (some 1)
+def opUD : FlowOp Rat := .universalDeath "udeath" true (.const (1/70))
+
+/-- SIR with infection, recovery, crude birth and universal death -/
+def m1 : Model Rat := build [(addFlow · opInf), (addFlow · opRec), (addFlow · opBirth), (addFlow · opUD)]
+
+def ones : Matrix (Expr Rat) := [[.const 1, .const 1], [.const 1, .const 1]]
+def halfHalf : List (String × Option (Adj Rat)) := [("urban", some (.mul (.const 2))), ("rural", none)]
+
+/-- a full stratification using every setter -/
+def spLoc : StratSpec Rat :=
+  { kind := .plain, name := "loc", strata := ["urban", "rural"], comps := ["S", "I", "R"],
+    split := some [("urban", .const (3/5)), ("rural", .const (2/5))],
+    flowAdj := [⟨"infection", halfHalf, [], []⟩],
+    infAdj := [("I", halfHalf)], mixing := some ones }
+/-- a partial stratification (only `S`) -/
+def spPart : StratSpec Rat :=
+  { kind := .plain, name := "loc", strata := ["urban", "rural"], comps := ["S"],
+    split := none, flowAdj := [], infAdj := [], mixing := none }
+def spStrain : StratSpec Rat :=
+  { kind := .strain, name := "strain", strata := ["a", "b"], comps := ["I"],
+    split := none, flowAdj := [], infAdj := [], mixing := none }
+
+def stratOf (sp : StratSpec Rat) : Strat Rat :=
+  ((mkStrat sp).toOption).getD ⟨.plain, "", [], [], [], [], [], none⟩
+def sLoc := stratOf spLoc
+def sPart := stratOf spPart
+def sStrain := stratOf spStrain
+/-- an age stratification as `AgeStratification("age", [0, 5], ["S","I","R"])` produces it
+(`String.toInt?` does not reduce in the kernel, so this one is written out) -/
+def sAge : Strat Rat :=
+  { kind := .age, name := "age", strata := ["0", "5"], comps := ["S", "I", "R"],
+    split := [("0", .const (1/2)), ("5", .const (1/2))], flowAdj := [], infAdj := [], mixing := none }
+
+/-- `m1` stratified by location (all compartments, with mixing matrix and adjustments) -/
+def m2 : Model Rat := build [(addFlow · opInf), (addFlow · opRec), (addFlow · opBirth), (addFlow · opUD),
+  (stratifyWith · sLoc)]
+/-- `m1` with only `S` stratified -/
+def m2p : Model Rat := build [(addFlow · opInf), (addFlow · opRec), (addFlow · opBirth), (addFlow · opUD),
+  (stratifyWith · sPart)]
+/-- `m1` stratified by strain -/
+def m3 : Model Rat := build [(addFlow · opInf), (addFlow · opRec), (addFlow · opBirth), (addFlow · opUD),
+  (stratifyWith · sStrain)]
+
+def rInc : ReqEntry Rat := ⟨"incidence", .flow "infection" [] [] false, true⟩
+def rPrev : ReqEntry Rat := ⟨"prevalence", .comp ["I"] [], true⟩
+/-- `m1` with two derived outputs -/
+def m4 : Model Rat := build [(addFlow · opInf), (addFlow · opRec), (addFlow · opBirth), (addFlow · opUD),
+  (addRequest · rInc), (addRequest · rPrev)]
+
+/-- the builds above really succeeded -/
+example : m1.flows.length = 6 ∧ m2.comps.length = 6 ∧ m2.flows.length = 12 ∧ m2.strats.length = 1 ∧
+    m2p.comps.length = 4 ∧ m3.comps.length = 4 ∧ m3.strains = ["a", "b"] ∧ m4.requests.length = 2 ∧
+    sLoc.strata = ["urban", "rural"] ∧ sStrain.kind = .strain := by decide +kernel
+
+/-! ### accepted calls (anti-over-rejection) -/
+
+/-- `mkModel` accepts, and produces exactly `m0` -/
+example : mkModel (0 : Rat) 10 1 (some 10) ["S", "I", "R"] ["I"] = .ok m0 := by rfl
+/-- every flow-adding call accepts -/
+example : (addFlow m0 opInf).isOk = true ∧ (addFlow m0 opRec).isOk = true ∧
+    (addFlow m0 opBirth).isOk = true ∧ (addFlow m0 opRepl).isOk = true ∧
+    (addFlow m0 opImp).isOk = true ∧ (addFlow m0 opDeath).isOk = true ∧
+    (addFlow m0 opUD).isOk = true ∧
+    (addFlow m1 (.transition .infDens "inf2" true (.param "beta") "S" "I" [] [] (some 1))).isOk = true ∧
+    (addFlow m2 (.transition .absolute "move" true (.const 3) "S" "R" [("loc", "urban")] [("loc", "rural")] (some 1))).isOk = true := by
+  decide +kernel
+/-- `mkStrat` accepts (all setters; plain and strain) -/
+example : (mkStrat spLoc).isOk = true ∧ (mkStrat spPart).isOk = true ∧ (mkStrat spStrain).isOk = true := by
+  decide +kernel
+/-- `stratifyWith` accepts a full stratification with mixing matrix and adjustments, a partial one,
+a strain one, and a second (different) stratification of an already stratified model -/
+example : (stratifyWith m1 sLoc).isOk = true ∧ (stratifyWith m1 sPart).isOk = true ∧
+    (stratifyWith m1 sStrain).isOk = true ∧ (stratifyWith m2 sStrain).isOk = true := by decide +kernel
+-- an age stratification is accepted (compiled evaluation; `String.toInt?` is kernel-opaque)
+#guard (stratifyWith m1 sAge).isOk
+#guard ((stratifyWith m1 sAge).toOption.map (fun m => (m.comps.length, m.flows.length))) == some (6, 14)
+-- ... and a second one is refused on the really age-stratified model
+#guard ((stratifyWith m1 sAge).toOption.map (fun m => (stratifyWith m { sAge with name := "age2" }).isOk)) == some false
+/-- population calls accept -/
+example : (setInitialPopulation m0 true [("S", .const 990), ("I", .const 10)]).isOk = true ∧
+    (initPopArray m2 [.const 1, .const 2, .const 3, .const 4, .const 5, .const 6]).isOk = true ∧
+    (adjustPopulationSplit m2 10000000 ⟨"loc", [], [("urban", .const (1/4)), ("rural", .const (3/4))]⟩).isOk = true := by
+  decide +kernel
+/-- all six request kinds accept -/
+example : (addRequest m1 rInc).isOk = true ∧ (addRequest m1 rPrev).isOk = true ∧
+    (addRequest m4 ⟨"total", .agg ["incidence", "prevalence"], true⟩).isOk = true ∧
+    (addRequest m4 ⟨"cum", .cum "incidence" none, true⟩).isOk = true ∧
+    (addRequest m4 ⟨"f", .func (.const 1) ["prevalence"], true⟩).isOk = true ∧
+    (addRequest m4 ⟨"cv", .cv "x", false⟩).isOk = true ∧
+    (addRequest m2 ⟨"inc_urban", .flow "infection" [("loc", "urban")] [] false, true⟩).isOk = true := by
+  decide +kernel
+
+/-! ### one concrete ill-formed call per theorem (the hypotheses are satisfiable) -/
+
+example : (mkModel (10 : Rat) 10 1 (some 0) ["S"] []).isOk = false :=
+  rejects_end_le_start _ _ _ _ _ _ (le_refl _)
+example : (mkModel (10 : Rat) 5 1 (some 0) ["S"] []).isOk = false :=
+  rejects_end_not_after_start _ _ _ _ _ _ (by decide +kernel)
+example : (mkModel (0 : Rat) 10 3 none ["S", "I"] ["I"]).isOk = false :=
+  rejects_timestep_not_dividing _ _ _ _ _
+example : (mkModel (0 : Rat) 10 1 (some 10) ["S", "I"] ["I", "X"]).isOk = false :=
+  rejects_infectious_unknown _ _ _ _ _ _ (by decide)
+example : (setInitialPopulation m0 true [("S", .const 990), ("X", .const 10)]).isOk = false :=
+  rejects_init_dist_unknown _ _ _ ⟨("X", .const 10), by simp, by decide⟩
+example : (addFlow m1 (.transition .transition "t" true (.const 1) "S" "X" [] [] none)).isOk = false :=
+  rejects_flow_comp_unknown _ _ _ _ _ _ _ _ _ _ (Or.inr (by decide +kernel))
+example : (addFlow m1 (.transition .infFreq "t" true (.const 1) "X" "I" [] [] none)).isOk = false :=
+  rejects_flow_comp_unknown _ _ _ _ _ _ _ _ _ _ (Or.inl (by decide +kernel))
+/-- two `S` compartments, one `I` compartment -/
+example : (addFlow m2p (.transition .transition "t" true (.const 1) "S" "I" [] [] none)).isOk = false :=
+  rejects_unequal_counts _ _ _ _ _ _ _ _ _ _ (by decide +kernel)
+example : (addFlow m1 opRepl).isOk = false := rejects_second_birth _ _ rfl (by decide +kernel)
+example : (addFlow m1 opBirth).isOk = false := rejects_second_birth _ _ rfl (by decide +kernel)
+example : (addFlow m1 opUD).isOk = false := rejects_dup_universal_death _ _ _ _ (by decide +kernel)
+example : (addFlow m2 (.death "d" true (.const 1) "I" [] (some 1))).isOk = false :=
+  rejects_unmet_expectation _ _ 1 rfl (by decide +kernel)
+example : (addFlow m2 (.transition .transition "t" true (.const 1) "I" "R" [] [] (some 3))).isOk = false :=
+  rejects_unmet_expectation _ _ 3 rfl (by decide +kernel)
+example : (addFlow m0 (.importF "i" true (.const 1) "I" false [] (some 0))).isOk = false :=
+  rejects_unmet_expectation _ _ 0 rfl (by decide +kernel)
+example : (addFlow m0 (.death "d" false (.const 1) "I" [] none)).isOk = false ∧
+    (addFlow m0 (.universalDeath "d" false (.const 1))).isOk = false ∧
+    (addFlow m0 (.transition .infFreq "d" false (.const 1) "S" "I" [] [] none)).isOk = false :=
+  ⟨rejects_bad_rate _ _ rfl, rejects_bad_rate _ _ rfl, rejects_bad_rate _ _ rfl⟩
+
+example : (mkStrat { spPart with flowAdj := [⟨"infection", [("urban", none)], [], []⟩] }).isOk = false :=
+  rejects_flow_adj_omits _ (by decide +kernel)
+example : (mkStrat { spPart with infAdj := [("I", [("rural", none)])] }).isOk = false :=
+  rejects_inf_adj_omits _ (by decide +kernel)
+example : (mkStrat { spPart with split := some [("urban", .const 1)] }).isOk = false :=
+  rejects_split_omits _ _ [1] rfl rfl (by decide +kernel)
+/-- sums to one but has a negative entry -/
+example : (mkStrat { spPart with split := some [("urban", .const (3/2)), ("rural", .const (-1/2))] }).isOk = false :=
+  rejects_split_negative _ _ [3/2, -1/2] rfl rfl (by decide +kernel)
+/-- boundary: the sum is exactly `1 - 1/100` -/
+example : (mkStrat { spPart with split := some [("urban", .const (1/2)), ("rural", .const (49/100))] }).isOk = false :=
+  rejects_split_sum_off _ _ [1/2, 49/100] rfl rfl (by decide +kernel)
+example : (mkStrat { spPart with split := some [("urban", .const (1/2)), ("rural", .const (3/5))] }).isOk = false :=
+  rejects_split_not_sum_one _ _ [1/2, 3/5] rfl rfl (Or.inr (by decide +kernel))
+example : (mkStrat { spStrain with mixing := some ones }).isOk = false :=
+  rejects_mixing_strain_set _ rfl rfl
+
+example : (stratifyWith m1 { sPart with comps := ["S", "X"] }).isOk = false :=
+  rejects_stratified_unknown _ _ (by decide +kernel)
+example : (stratifyWith m1 { sPart with flowAdj := [⟨"nonexistent", halfHalf, [], []⟩] }).isOk = false :=
+  rejects_adjusted_flow_unknown _ _ (by decide +kernel)
+/-- `loc` exists in `m2` but has no stratum `alpine` -/
+example : (stratifyWith m2 { sStrain with flowAdj := [⟨"infection", [("a", none), ("b", none)], [("loc", "alpine")], []⟩] }).isOk = false :=
+  rejects_filter_stratum_unknown _ _ (by decide +kernel)
+example : (stratifyWith m2 { sStrain with flowAdj := [⟨"infection", [("a", none), ("b", none)], [], [("zone", "a")]⟩] }).isOk = false :=
+  rejects_filter_stratification_unknown _ _ (by decide +kernel)
+example : (stratifyWith { m1 with strats := [sAge] } { sAge with name := "age2" }).isOk = false :=
+  rejects_second_age _ _ rfl (by decide +kernel)
+example : (stratifyWith m3 { sStrain with name := "strain2" }).isOk = false :=
+  rejects_second_strain _ _ (by decide +kernel) (by decide +kernel)
+example : (stratifyWith m2 sPart).isOk = false := rejects_dup_strat_name _ _ (by decide +kernel)
+example : (stratifyWith m1 { sPart with mixing := some ones }).isOk = false :=
+  rejects_mixing_partial _ _ rfl (by decide +kernel)
+example : (stratifyWith m1 { sAge with comps := ["S", "I"] }).isOk = false :=
+  rejects_age_partial _ _ rfl (by decide +kernel)
+example : (stratifyWith m1 { sStrain with mixing := some ones }).isOk = false :=
+  rejects_mixing_strain _ _ (by decide +kernel) rfl
+
+example : (addRequest m2 ⟨"x", .comp ["I"] [("loc", "alpine")], true⟩).isOk = false :=
+  rejects_output_comp_unknown _ _ _ _ _ (by decide +kernel)
+example : (addRequest m1 ⟨"x", .flow "nonexistent" [] [] false, true⟩).isOk = false ∧
+    (addRequest m4 ⟨"x", .agg ["incidence", "nope"], true⟩).isOk = false ∧
+    (addRequest m4 ⟨"x", .cum "nope" none, true⟩).isOk = false ∧
+    (addRequest m4 ⟨"x", .func (.const 1) ["nope"], true⟩).isOk = false :=
+  ⟨rejects_output_source_unknown _ _ (by decide +kernel), rejects_output_source_unknown _ _ (by decide +kernel),
+   rejects_output_source_unknown _ _ (by decide +kernel), rejects_output_source_unknown _ _ (by decide +kernel)⟩
+example : (addRequest m4 rPrev).isOk = false := rejects_dup_output_name _ _ (by decide +kernel)
+
+example : (stratifyWith m1 { sPart with infAdj := [("E", halfHalf)] }).isOk = false :=
+  rejects_inf_adj_comp_unknown _ _ (by decide +kernel)
+
+/-- the master theorem on one instance -/
+example : (Call.addFlow opRepl).isOk m1 = false := rejects m1 _ (.secondBirth rfl (by decide +kernel))
+
+/-! ### finalised -/
+def mFin : Model Rat := { m2 with finalized := true }
+example : ∀ c ∈ [Call.addFlow opInf, .addFlow opRepl, .addFlow opImp, .addFlow opDeath, .addFlow opUD,
+      .addFlow (.crudeBirth "b2" true (.const 1) "S" [] none), .stratifyWith sStrain,
+      .setInitialPopulation true [], .initPopArray [],
+      .adjustPopulationSplit 10000000 ⟨"loc", [], [("urban", .const (1/4)), ("rural", .const (3/4))]⟩,
+      .addRequest rInc], Call.isOk mFin c = false := by
+  intro c hc
+  refine finalised mFin c rfl ?_ (fun _ _ _ _ => by decide +kernel)
+  simp only [List.mem_cons, List.not_mem_nil, or_false] at hc
+  rcases hc with rfl | rfl | rfl | rfl | rfl | rfl | rfl | rfl | rfl | rfl | rfl <;> rfl
+
+/-- the side condition of `finalised` is necessary: on a finalised model without compartments
+`add_universal_death_flows` does not raise -/
+def mEmptyFin : Model Rat := { m0 with comps := [], origNames := [], infectious := [], finalized := true }
+example : (addFlow mEmptyFin opUD).isOk = true := by decide +kernel
+
+/-! ### outside the property (NOT claimed, recorded for the record)
+Entry and exit flows (`add_crude_birth_flow`, `add_replacement_birth_flow`, `add_importation_flow`
+without `split_imports`, `add_death_flow`) naming a compartment that does not exist are NOT rejected —
+neither by the model nor by the Python (`_add_entry_flow` / `_add_exit_flow` filter the compartment
+list): they silently add zero flows unless `expected_flow_count` is given.  The property sentence
+lists only transition/infection flows. -/
+example : (addFlow m0 (.death "d" true (.const 1) "X" [] none)).isOk = true ∧
+    ((addFlow m0 (.death "d" true (.const 1) "X" [] none)).toOption.map (·.flows.length)) = some 0 ∧
+    (addFlow m0 (.crudeBirth "b" true (.const 1) "X" [] none)).isOk = true ∧
+    (addFlow m0 (.death "d" true (.const 1) "X" [] (some 1))).isOk = false := by decide +kernel
+
+/-! ### reachable models -/
+
+/-- `m2p` (SIR + four flow calls + partial stratification built by `mkStrat`) is reachable -/
+theorem m2p_reachable : Reachable m2p :=
+  .stratify (sp := spPart) (s := sPart)
+    (.addFlow (op := opUD) (.addFlow (op := opBirth) (.addFlow (op := opRec) (.addFlow (op := opInf)
+      (.mk (t0 := 0) (t1 := 10) (dt := 1) (ws := some 10) (comps := ["S", "I", "R"]) (inf := ["I"]) (m := m0) rfl)
+      (m' := build [(addFlow · opInf)]) rfl)
+      (m' := build [(addFlow · opInf), (addFlow · opRec)]) rfl)
+      (m' := build [(addFlow · opInf), (addFlow · opRec), (addFlow · opBirth)]) rfl)
+      (m' := m1) rfl)
+    rfl rfl
+
+example : (addFlow m2p (.transition .transition "t" true (.const 1) "S" "E" [] [] none)).isOk = false :=
+  rejects_flow_comp_absent _ m2p_reachable _ _ _ _ _ _ _ _ _ (Or.inr (by decide +kernel))
+example : (stratifyWith m2p { sStrain with comps := ["E"] }).isOk = false :=
+  rejects_stratified_absent _ m2p_reachable _ (by decide +kernel)
+example : (stratifyWith m2p { sStrain with flowAdj := [⟨"infection", [("a", none), ("b", none)], [("loc", "alpine")], []⟩] }).isOk = false :=
+  rejects_filter_stratum_absent _ m2p_reachable _ (by decide +kernel)
+
+end Ex
 end Summer.Props.C17
-#print axioms Summer.Props.C17.placeholder
+
+#print axioms Summer.Props.C17.rejects
+#print axioms Summer.Props.C17.rejects_end_not_after_start
+#print axioms Summer.Props.C17.rejects_timestep_not_dividing
+#print axioms Summer.Props.C17.rejects_infectious_unknown
+#print axioms Summer.Props.C17.rejects_init_dist_unknown
+#print axioms Summer.Props.C17.rejects_flow_comp_unknown
+#print axioms Summer.Props.C17.rejects_unequal_counts
+#print axioms Summer.Props.C17.rejects_second_birth
+#print axioms Summer.Props.C17.rejects_dup_universal_death
+#print axioms Summer.Props.C17.rejects_unmet_expectation
+#print axioms Summer.Props.C17.rejects_bad_rate
+#print axioms Summer.Props.C17.rejects_flow_adj_omits
+#print axioms Summer.Props.C17.rejects_inf_adj_omits
+#print axioms Summer.Props.C17.rejects_split_omits
+#print axioms Summer.Props.C17.rejects_split_negative
+#print axioms Summer.Props.C17.rejects_split_not_sum_one
+#print axioms Summer.Props.C17.rejects_mixing_strain_set
+#print axioms Summer.Props.C17.rejects_stratified_unknown
+#print axioms Summer.Props.C17.rejects_adjusted_flow_unknown
+#print axioms Summer.Props.C17.rejects_filter_stratum_unknown
+#print axioms Summer.Props.C17.rejects_filter_stratification_unknown
+#print axioms Summer.Props.C17.rejects_second_age
+#print axioms Summer.Props.C17.rejects_second_strain
+#print axioms Summer.Props.C17.rejects_dup_strat_name
+#print axioms Summer.Props.C17.rejects_mixing_partial
+#print axioms Summer.Props.C17.rejects_age_partial
+#print axioms Summer.Props.C17.rejects_inf_adj_comp_unknown
+#print axioms Summer.Props.C17.rejects_mixing_strain
+#print axioms Summer.Props.C17.rejects_output_comp_unknown
+#print axioms Summer.Props.C17.rejects_output_source_unknown
+#print axioms Summer.Props.C17.rejects_dup_output_name
+#print axioms Summer.Props.C17.rejects_end_le_start
+#print axioms Summer.Props.C17.rejects_split_sum_off
+#print axioms Summer.Props.C17.finalised
+#print axioms Summer.Props.C17.universalDeath_no_compartments
+#print axioms Summer.Props.C17.reachable_names
+#print axioms Summer.Props.C17.rejects_flow_comp_absent
+#print axioms Summer.Props.C17.rejects_stratified_absent
+#print axioms Summer.Props.C17.rejects_filter_stratum_absent
